@@ -1,15 +1,24 @@
 #include <occa/internal/core/device.hpp>
 #include <occa/internal/core/stream.hpp>
+#ifdef LIBOCCA_OCCA_VERIF
+#include <occa/internal/utils/verif.hpp>
+#endif
 
 namespace occa {
   modeStream_t::modeStream_t(modeDevice_t *modeDevice_,
                              const occa::json &properties_) :
     properties(properties_),
     modeDevice(modeDevice_) {
+#ifdef LIBOCCA_OCCA_VERIF
+    verif::created(verif::kStream, this);
+#endif
     modeDevice->addStreamRef(this);
   }
 
   modeStream_t::~modeStream_t() {
+#ifdef LIBOCCA_OCCA_VERIF
+    verif::destroyed(verif::kStream, this);
+#endif
     // NULL all wrappers
     while (streamRing.head) {
       stream *mem = (stream*) streamRing.head;
